@@ -212,16 +212,36 @@ def run(ctx):
         report.lost_anchor("per-label closure of get_key")
     else:
         rt = gc.local_ty(0)["s"]
-        pushes_c = mu.calls(gc, r"Vec::<T, A>::(push|insert|extend_from_slice)$")
-        once = mu.calls(gc, r"^std::iter::once$")
-        delim = ("Once<u8>" in rt and once) or pushes_c
+        # labels are arbitrary bytes, so only a length prefix makes the per-label encoding prefix-free (a leading or
+        # trailing separator byte does not: `.com._tcp._res1` is a byte prefix of `.com._tcp._res10`): some byte emitted
+        # by the closure (once / push / array element) must be computed from len() of the label's bytes
+        gdefs = mu.defs_of(gc)
+        emitters = mu.calls(gc, r"^std::iter::once$|Vec::<T, A>::(push|insert)$")
+        delim = False
+        for _, et in emitters:
+            arg = et["args"][-1]
+            cur = mu.op_local(arg)
+            for _ in range(6):
+                d = mu.single_def(gdefs, cur) if cur is not None else None
+                if d is None:
+                    break
+                if d[1] == "term":
+                    cal = d[2]["callee"]["def"] if d[2]["callee"] else ""
+                    if re.search(r"(Vec::<T, A>|<impl \[T\]>|String|<impl str>)::len$", cal):
+                        delim = True
+                    break
+                rv = d[2]
+                if rv.get("k") in ("cast", "use") and rv["op"].get("o") in ("copy", "move"):
+                    cur = mu.op_local(rv["op"])
+                else:
+                    break
         if delim:
             report.nontriv("key boundaries")
             report.sample({"fn": gk.qname, "per_label_bytes": rt})
         else:
-            viol(report, "C13-R4", gk, "key-boundaries", "the trie key is the bare concatenation of the label texts (%s): names that split the "
-                 "same characters differently (printer.office.local / officeprinter.local) share a key, so label-wise matching is "
-                 "impossible" % rt)
+            viol(report, "C13-R4", gk, "key-boundaries", "the per-label part of the trie key (%s) carries no length prefix: names that split "
+                 "the same characters differently (printer.office.local / officeprinter.local) or whose first label extends another's "
+                 "(_res1 / _res10 with a separator byte) share a key or a key prefix, so label-wise matching is impossible" % rt)
     report.assumptions += ["that trie lookup is label-wise equality / subdomain for all stores is not decided (value-level); R4 is a necessary condition",
                            "match_qtype / match_qclass are C18-R4"]
     return report.finish()
